@@ -224,15 +224,15 @@ type ListEntry struct {
 	Size int64  `xml:"Size"`
 }
 type ListResult struct {
-	Name                  string      `xml:"Name"`
-	Prefix                string      `xml:"Prefix"`
-	Contents              []ListEntry `xml:"Contents"`
+	Name                  string                    `xml:"Name"`
+	Prefix                string                    `xml:"Prefix"`
+	Contents              []ListEntry               `xml:"Contents"`
 	CommonPrefixes        []struct{ Prefix string } `xml:"CommonPrefixes"`
-	IsTruncated           bool        `xml:"IsTruncated"`
-	NextMarker            string      `xml:"NextMarker"`
-	NextContinuationToken string      `xml:"NextContinuationToken"`
-	KeyCount              int         `xml:"KeyCount"`
-	MaxKeys               int         `xml:"MaxKeys"`
+	IsTruncated           bool                      `xml:"IsTruncated"`
+	NextMarker            string                    `xml:"NextMarker"`
+	NextContinuationToken string                    `xml:"NextContinuationToken"`
+	KeyCount              int                       `xml:"KeyCount"`
+	MaxKeys               int                       `xml:"MaxKeys"`
 }
 
 func ListV2(cl *s3c.Client, b string, q ...s3c.KV) (*ListResult, *s3c.Resp) {
